@@ -20,6 +20,7 @@ func init() {
 			"(R1, first match wins) the file handle returned by os.Open inside the search loop is merged into the bundle variable only on an edge that leaves the loop — no loop-carried phi receives it, so a later search path can never replace an earlier hit; " +
 			"(R2, search order) the executable's directory (filepath.Dir(os.Executable())) is appended to the search list before filesystem.LibexecPath(), and the loop indexes that list; " +
 			"(R3, exact extraction) the archive entry is selected by equality of its name with fmt.Sprintf(\"%s_%s\", goos, goarch), io.CopyN copies exactly that header's Size from the same tar reader, a nil header (no match) returns an error, and every failure after the output file was created removes it. " +
+			"(R4) an output file the bundle code opens for writing is created and truncated (O_CREATE|O_TRUNC), so a stale longer file cannot keep its tail; " +
 			"Not decided: byte equality of the extracted file with the archive entry (runtime data; follows from CopyN's contract under R3).",
 		Assumptions: []string{"io.CopyN, archive/tar and gzip behave as documented", "range over a slice visits indices in increasing order"},
 		Run:         runC46,
@@ -27,6 +28,7 @@ func init() {
 }
 
 func runC46(c *eng.Ctx) {
+	c46OutputTruncated(c)
 	fn := c.MustFunc("R1", agentPkg, "ExecutableForPlatform")
 	if fn == nil {
 		return
